@@ -40,6 +40,7 @@ type Case struct {
 	FailLock   int   // n-th Lock fails (0 = none)
 	FailSerial []int // handler executions (by serial) that return an error
 	Memory     bool  // default in-memory storage + MemoryLock without yield points (only the handler yields)
+	Retain     bool  `json:",omitempty"` // the external storage keeps the slices it is given (like gofiber's memory driver)
 }
 
 type fLock struct {
@@ -101,6 +102,7 @@ func check(c Case) vk.Verdict {
 	}
 	if !c.Memory {
 		st = vk.NewStorage()
+		st.Retain = c.Retain
 		if c.FailGet > 0 {
 			st.FailGet = map[int]bool{c.FailGet: true}
 		}
@@ -357,6 +359,7 @@ func genCase(t *rapid.T) Case {
 		c.Seq = append(c.Seq, genReq(t))
 	}
 	if !c.Memory {
+		c.Retain = rapid.IntRange(0, 2).Draw(t, "retain") == 0
 		if rapid.IntRange(0, 2).Draw(t, "getfault") == 0 {
 			c.FailGet = rapid.IntRange(1, 8).Draw(t, "gf")
 		}
